@@ -344,7 +344,7 @@ Definition ex19_inp : input :=
           [mkIStop [(-1)%Z] 10%Z [] None 100%Z []; mkIStop [(-1)%Z] 10%Z [] None 100%Z []]
           [mkIVehicle (Some [2%Z]) [0%Z] 0%Z None None None None None [] 0%Z true true]
           [mkIUnit [0%nat] []; mkIUnit [1%nat] []]
-          ex_mat ex_mat 1 ex_opts.
+          ex_mat ex_mat 1 ex_opts [].
 Definition ex19_s0 : state :=
   Eval vm_compute in match new_solution ex19_inp with Some s => s | None => ex_dummy end.
 Definition ex19_mv1 : move := mkMove 0 0 [(0, 1)]%nat.
@@ -353,7 +353,7 @@ Definition ex19_s1 : state := Eval vm_compute in fst (exec_move ex19_inp ex19_s0
 
 Example ex19_wf : wf_input ex19_inp.
 Proof.
-  split; [|split].
+  split; [|split; [|split; [|exact (Forall_nil _)]]].
   - vm_compute. constructor; [simpl; lia|]. constructor; [simpl; tauto|constructor].
   - intros x. vm_compute. lia.
   - intros u Hu. vm_compute in Hu. destruct Hu as [<-|[<-|[]]]; discriminate.
